@@ -16,7 +16,22 @@ open Rpft Rpft.Compile Rpft.RefFlow
 /-! ### where the rows live -/
 
 /-- a row that produces a node (and a node group) -/
-def isNodeRow (c : CRow) : Bool := (kindOf c.row.type).isNode
+def isNodeRow (c : CRow) : Bool := (kindOf c.row.type).isNode && !(c.merged && isNamedAct c)
+
+theorem isNodeRow_kind {c : CRow} (h : isNodeRow c = true) : (kindOf c.row.type).isNode = true := by
+  unfold isNodeRow at h
+  simp only [Bool.and_eq_true] at h
+  exact h.1
+
+/-- the mark matters for action rows with a node name only -/
+theorem isNodeRow_of_special {c : CRow} (h : specialTypes.contains c.row.type = true) :
+    isNodeRow c = (kindOf c.row.type).isNode := by
+  unfold isNodeRow isNamedAct
+  rw [h]; simp
+
+theorem isNodeRow_of_unmerged {c : CRow} (h : c.merged = false) : isNodeRow c = (kindOf c.row.type).isNode := by
+  unfold isNodeRow
+  rw [h]; simp
 
 /-- the node group of a node-producing row: groups are created in row order, group 0 is the root -/
 def gOf (rows : List CRow) (j : Nat) : Nat := ((rows.take j).filter isNodeRow).length + 1
@@ -47,10 +62,32 @@ theorem gOf_lt (rows : List CRow) {j k : Nat} {c : CRow} (h : j < k) (hc : rows[
   have h2 := gOf_mono rows (show j + 1 ≤ k from h)
   simp at h1; omega
 
+theorem isNoop_of_kind {c : CRow} (h : kindOf c.row.type = .noOp) : isNoop c = true := by
+  unfold isNoop
+  rw [decide_eq_true_iff]
+  by_cases hn : c.row.type = "no_op".toList
+  · exact hn
+  · exfalso
+    unfold kindOf at h
+    repeat' split at h
+    all_goals first | cases h | exact hn ‹_›
+
+theorem kindOf_noop : kindOf "no_op".toList = .noOp := by decide
+
+theorem isNodeRow_of_noop {c : CRow} (h : isNoop c = true) : isNodeRow c = true := by
+  unfold isNoop at h
+  have ht := of_decide_eq_true h
+  rw [isNodeRow_of_special (by rw [ht]; decide), ht]; decide
+
 /-- ghost maps: arena index of the node of a row, and of the router node behind it (if any) -/
 structure Maps where
   nOf : Nat → Nat
   rOf : Nat → Option Nat
+  /-- the row owns no node: a `no_op` row that has not been left yet, or that has been left
+  unconditionally (then `nOf` is the node its sources lead to) -/
+  el : Nat → Bool := fun _ => false
+  /-- a `no_op` row that has not been left yet -/
+  fr : Nat → Bool := fun _ => false
 
 /-- destination `d` of a compiled exit is what the reference target means -/
 def DestIs (M : Maps) (ns : Array NodeM) (d : Dest) : Option Target → Prop
@@ -71,10 +108,12 @@ theorem DestIs.ext {M : Maps} {ns ns' : Array NodeM} (h : NExt ns ns') {d : Dest
       exact ⟨m', hm', by rw [e, hu]⟩
 
 /-- an action row without conditional out-edges: one node, one exit -/
-structure PlainSim (M : Maps) (ns : Array NodeM) (n : NodeM) (act : Option Str) (es : List OutEdge) : Prop where
+structure PlainSim (M : Maps) (ns : Array NodeM) (n : NodeM) (act : Option Str) (post : List Str) (es : List OutEdge) :
+    Prop where
   kind : n.kind = NodeKind.basic
   router : n.router = none
-  acts : n.actions.map (·.2) = act.toList
+  /-- its own action, then the actions of the rows merged into the node -/
+  acts : n.actions.map (·.2) = act.toList ++ post
   dest : DestIs M ns n.dexitDest ((es.getLast?).map (·.tgt))
   blank : ∀ e ∈ es, e.cond.blank = true
 
@@ -185,17 +224,38 @@ structure RandSim (M : Maps) (ns : Array NodeM) (n : NodeM) (c : CRow) (es : Lis
     r.cats (bucketsOf es).1
   gen : ∀ cat ∈ r.cats, ∀ k, cat.name = "Bucket ".toList ++ Compile.natStr k → k < r.cats.length + 2
 
+/-! #### `no_op` rows left conditionally -/
+
+/-- a `no_op` row with conditional out-edges: one node with a switch router on the variable the edges
+name, no action, no wait -/
+structure NopSim (M : Maps) (ns : Array NodeM) (n : NodeM) (c : CRow) (es : List OutEdge) (r : SwitchR) : Prop where
+  kind : n.kind = NodeKind.switch
+  acts : n.actions = []
+  router : n.router = some (.sw r)
+  operand : r.operand ≠ [] ∧ (testsOf .noOp es ≠ [] → r.operand = implVar es)
+  rname : r.resultName = none
+  wait : r.wait = none
+  noResp : r.noResp = none
+  cases : r.cases.map (fun k => (k.type, k.args.map (·.getD []))) =
+    (testsOf .noOp es).map (fun e => refTest .noOp e.cond)
+  casecat : r.cases.map (·.catUid) = r.cats.map (·.uid)
+  catd : List.Forall₂ (fun (cat : Cat) (e : OutEdge) => DestIs M ns cat.dest (some e.tgt)) r.cats (testsOf .noOp es)
+  dflt : DestIs M ns r.dflt.dest (((es.filter (·.cond.blank)).getLast?).map (·.tgt))
+  names : r.cats.map (·.name) = namesFrom .noOp (timeoutOf c.row) [] (testsOf .noOp es) ∧
+    r.dflt.name = "Other".toList
+
 def isFixedKind (K : Kind) : Prop := K = .enterFlow ∨ K = .webhook ∨ K = .airtime
 
-inductive NodeSim (M : Maps) (ns : Array NodeM) (n : NodeM) (c : CRow) (es : List OutEdge) : Prop
-  | plain : kindOf c.row.type = .action → PlainSim M ns n c.row.action es → NodeSim M ns n c es
+inductive NodeSim (M : Maps) (ns : Array NodeM) (n : NodeM) (c : CRow) (post : List Str) (es : List OutEdge) : Prop
+  | plain : kindOf c.row.type = .action → PlainSim M ns n c.row.action post es → NodeSim M ns n c post es
   | sw (r : SwitchR) : (kindOf c.row.type = .wait ∨ kindOf c.row.type = .splitValue ∨ kindOf c.row.type = .splitGroup) →
-      SwitchSim M ns n c es r → NodeSim M ns n c es
-  | fix (r : SwitchR) (sc : Cat) : isFixedKind (kindOf c.row.type) → FixSim M ns n c es r sc → NodeSim M ns n c es
-  | rnd (r : RandomR) : kindOf c.row.type = .splitRandom → RandSim M ns n c es r → NodeSim M ns n c es
+      SwitchSim M ns n c es r → NodeSim M ns n c post es
+  | fix (r : SwitchR) (sc : Cat) : isFixedKind (kindOf c.row.type) → FixSim M ns n c es r sc → NodeSim M ns n c post es
+  | rnd (r : RandomR) : kindOf c.row.type = .splitRandom → RandSim M ns n c es r → NodeSim M ns n c post es
+  | nop (r : SwitchR) : kindOf c.row.type = .noOp → NopSim M ns n c es r → NodeSim M ns n c post es
 
-theorem NodeSim.ext {M : Maps} {ns ns' : Array NodeM} (h : NExt ns ns') {n : NodeM} {c : CRow} {es : List OutEdge}
-    (hs : NodeSim M ns n c es) : NodeSim M ns' n c es := by
+theorem NodeSim.ext {M : Maps} {ns ns' : Array NodeM} (h : NExt ns ns') {n : NodeM} {c : CRow} {post : List Str} {es : List OutEdge}
+    (hs : NodeSim M ns n c post es) : NodeSim M ns' n c post es := by
   cases hs with
   | plain hk hp => exact .plain hk ⟨hp.kind, hp.router, hp.acts, hp.dest.ext h, hp.blank⟩
   | sw r hk hp =>
@@ -208,6 +268,9 @@ theorem NodeSim.ext {M : Maps} {ns ns' : Array NodeM} (h : NExt ns ns') {n : Nod
   | rnd r hk hp =>
     exact .rnd r hk ⟨hp.kind, hp.acts, hp.router, hp.rname, hp.uids, hp.names,
       hp.rel.imp (fun _ _ hd => ⟨hd.1.ext h, hd.2⟩), hp.gen⟩
+  | nop r hk hp =>
+    exact .nop r hk ⟨hp.kind, hp.acts, hp.router, hp.operand, hp.rname, hp.wait, hp.noResp, hp.cases, hp.casecat,
+      hp.catd.imp (fun _ _ hd => hd.ext h), hp.dflt.ext h, hp.names⟩
 
 /-! #### an action row with conditional out-edges: the compiler puts a router node behind its node -/
 
@@ -219,11 +282,11 @@ def implOperand (es : List OutEdge) : Str := if (implVar es).isEmpty then "@inpu
 def implWait (es : List OutEdge) : Option Nat := if (implVar es).isEmpty then some 0 else none
 
 /-- node `n` performs the action and leads to node `n'` (arena index `i'`), which decides -/
-structure ImplSim (M : Maps) (ns : Array NodeM) (n : NodeM) (c : CRow) (es : List OutEdge) (i' : Nat) (n' : NodeM)
-    (r : SwitchR) : Prop where
+structure ImplSim (M : Maps) (ns : Array NodeM) (n : NodeM) (c : CRow) (post : List Str) (es : List OutEdge) (i' : Nat)
+    (n' : NodeM) (r : SwitchR) : Prop where
   kind : n.kind = NodeKind.basic
   router : n.router = none
-  acts : n.actions.map (·.2) = c.row.action.toList
+  acts : n.actions.map (·.2) = c.row.action.toList ++ post
   link : n.dexitDest = Dest.node n'.uid
   rnode : ns[i']? = some n'
   kind' : n'.kind = NodeKind.switch
@@ -243,14 +306,15 @@ structure ImplSim (M : Maps) (ns : Array NodeM) (n : NodeM) (c : CRow) (es : Lis
     r.dflt.name = "Other".toList
 
 /-- the nodes of a row: one node, or (action row with conditional out-edges) two -/
-inductive RowSim (M : Maps) (ns : Array NodeM) (n : NodeM) (c : CRow) (es : List OutEdge) : Option Nat → Prop
-  | one : NodeSim M ns n c es → RowSim M ns n c es none
-  | impl (i' : Nat) (n' : NodeM) (r : SwitchR) : kindOf c.row.type = .action → ImplSim M ns n c es i' n' r →
-      RowSim M ns n c es (some i')
+inductive RowSim (M : Maps) (ns : Array NodeM) (n : NodeM) (c : CRow) (post : List Str) (es : List OutEdge) :
+    Option Nat → Prop
+  | one : NodeSim M ns n c post es → RowSim M ns n c post es none
+  | impl (i' : Nat) (n' : NodeM) (r : SwitchR) : kindOf c.row.type = .action → ImplSim M ns n c post es i' n' r →
+      RowSim M ns n c post es (some i')
 
 /-- other nodes change (keeping their identifiers), the router node of the row does not -/
-theorem RowSim.transfer {M : Maps} {ns ns' : Array NodeM} (h : NExt ns ns') {n : NodeM} {c : CRow} {es : List OutEdge}
-    {ro : Option Nat} (hro : ∀ i ∈ ro.toList, ns'[i]? = ns[i]?) (hs : RowSim M ns n c es ro) : RowSim M ns' n c es ro := by
+theorem RowSim.transfer {M : Maps} {ns ns' : Array NodeM} (h : NExt ns ns') {n : NodeM} {c : CRow} {post : List Str} {es : List OutEdge}
+    {ro : Option Nat} (hro : ∀ i ∈ ro.toList, ns'[i]? = ns[i]?) (hs : RowSim M ns n c post es ro) : RowSim M ns' n c post es ro := by
   cases hs with
   | one hn => exact .one (hn.ext h)
   | impl i' n' r hk hp =>
@@ -270,8 +334,8 @@ theorem DestIs.congrN {M M' : Maps} (hM : ∀ t, M'.nOf t = M.nOf t) {ns : Array
       exact ⟨m, by rw [hM k]; exact hm, e⟩
 
 /-- only `nOf` matters for the nodes of a row -/
-theorem NodeSim.congrN {M M' : Maps} (hM : ∀ t, M'.nOf t = M.nOf t) {ns : Array NodeM} {n : NodeM} {c : CRow}
-    {es : List OutEdge} (hs : NodeSim M ns n c es) : NodeSim M' ns n c es := by
+theorem NodeSim.congrN {M M' : Maps} (hM : ∀ t, M'.nOf t = M.nOf t) {ns : Array NodeM} {n : NodeM} {c : CRow} {post : List Str}
+    {es : List OutEdge} (hs : NodeSim M ns n c post es) : NodeSim M' ns n c post es := by
   cases hs with
   | plain hk hp => exact .plain hk ⟨hp.kind, hp.router, hp.acts, hp.dest.congrN hM, hp.blank⟩
   | sw r hk hp =>
@@ -284,9 +348,12 @@ theorem NodeSim.congrN {M M' : Maps} (hM : ∀ t, M'.nOf t = M.nOf t) {ns : Arra
   | rnd r hk hp =>
     exact .rnd r hk ⟨hp.kind, hp.acts, hp.router, hp.rname, hp.uids, hp.names,
       hp.rel.imp (fun _ _ hd => ⟨hd.1.congrN hM, hd.2⟩), hp.gen⟩
+  | nop r hk hp =>
+    exact .nop r hk ⟨hp.kind, hp.acts, hp.router, hp.operand, hp.rname, hp.wait, hp.noResp, hp.cases, hp.casecat,
+      hp.catd.imp (fun _ _ hd => hd.congrN hM), hp.dflt.congrN hM, hp.names⟩
 
-theorem RowSim.congrN {M M' : Maps} (hM : ∀ t, M'.nOf t = M.nOf t) {ns : Array NodeM} {n : NodeM} {c : CRow}
-    {es : List OutEdge} {ro : Option Nat} (hs : RowSim M ns n c es ro) : RowSim M' ns n c es ro := by
+theorem RowSim.congrN {M M' : Maps} (hM : ∀ t, M'.nOf t = M.nOf t) {ns : Array NodeM} {n : NodeM} {c : CRow} {post : List Str}
+    {es : List OutEdge} {ro : Option Nat} (hs : RowSim M ns n c post es ro) : RowSim M' ns n c post es ro := by
   cases hs with
   | one hn => exact .one (hn.congrN hM)
   | impl i' n' r hk hp =>
@@ -302,17 +369,86 @@ def RFresh (nodes : Array NodeM) (next : Nat) : Prop :=
   ∀ (i : Nat) (n : NodeM) (r : RandomR), nodes[i]? = some n → n.router = some (RouterM.rnd r) →
     ∀ cat ∈ r.cats, ∃ k, k < next ∧ cat.uid = tid k
 
+/-- the actions the rows before row `kg` have merged into the node of row `j` (they carry its node
+name and the mark) -/
+def postUpTo (rows : List CRow) (kg j : Nat) : List Str :=
+  match rows[j]? with
+  | some c =>
+    if !isNamedAct c then []
+    else ((rows.take kg).drop (j + 1)).filterMap fun c' =>
+      if c'.merged && isNamedAct c' && decide (c'.row.nodeName = c.row.nodeName) then c'.row.action else none
+  | none => []
+
+theorem postUpTo_le (rows : List CRow) {kg j : Nat} (h : kg ≤ j + 1) : postUpTo rows kg j = [] := by
+  unfold postUpTo
+  cases rows[j]? with
+  | none => rfl
+  | some c =>
+    simp only
+    split
+    · rfl
+    · have : (rows.take kg).drop (j + 1) = [] := by
+        rw [List.drop_eq_nil_iff]; simp; omega
+      rw [this]; rfl
+
+/-- a row that is not merged adds nothing -/
+theorem postUpTo_succ (rows : List CRow) (k j : Nat) (c : CRow) (hc : rows[k]? = some c)
+    (hm : (c.merged && isNamedAct c) = false) : postUpTo rows (k + 1) j = postUpTo rows k j := by
+  unfold postUpTo
+  cases rows[j]? with
+  | none => rfl
+  | some cj =>
+    simp only
+    split
+    · rfl
+    · rw [List.take_add_one, hc]
+      simp only [Option.toList, List.drop_append, List.filterMap_append]
+      have : ([c].drop (j + 1 - (rows.take k).length)).filterMap (fun c' =>
+          if c'.merged && isNamedAct c' && decide (c'.row.nodeName = cj.row.nodeName) then c'.row.action else none) = [] := by
+        cases hd : (j + 1 - (rows.take k).length) with
+        | zero =>
+          simp only [List.drop_zero, List.filterMap_cons, List.filterMap_nil]
+          cases h1 : c.merged && isNamedAct c with
+          | false => simp [h1]
+          | true => rw [h1] at hm; cases hm
+        | succ m => simp
+      rw [this, List.append_nil]
+
+/-- the mark is what `mergeAt` says -/
+def Annot (rows : List CRow) : Prop := ∀ j c, rows[j]? = some c → c.merged = mergeAt rows j
+
+/-- the node names in use are those of the rows that created a node, and lead to these nodes -/
+def NamesInv (rows : List CRow) (M : Maps) (kg : Nat) (names : List (Str × Nat)) : Prop :=
+  (∀ p ∈ names, p.1 ≠ [] → ∃ i c, i < kg ∧ rows[i]? = some c ∧ isNodeRow c = true ∧ isNoop c = false ∧
+      isNamedAct c = true ∧ c.row.nodeName = p.1 ∧ p.2 = M.nOf i) ∧
+  (∀ i c, i < kg → rows[i]? = some c → isNodeRow c = true → isNoop c = false → c.row.nodeName ≠ [] →
+      (c.row.nodeName, M.nOf i) ∈ names)
+
+theorem NamesInv.congr {rows : List CRow} {M M' : Maps} {kg : Nat} {names : List (Str × Nat)}
+    (h : NamesInv rows M kg names)
+    (hM : ∀ i c, i < kg → rows[i]? = some c → isNodeRow c = true → isNoop c = false → M'.nOf i = M.nOf i) :
+    NamesInv rows M' kg names := by
+  refine ⟨fun p hp hne => ?_, fun i c hi hc hn hnn hne => ?_⟩
+  · obtain ⟨i, c, hi, hc, hn, hnn, hna, he, hp2⟩ := h.1 p hp hne
+    exact ⟨i, c, hi, hc, hn, hnn, hna, he, by rw [hM i c hi hc hn hnn]; exact hp2⟩
+  · rw [hM i c hi hc hn hnn]; exact h.2 i c hi hc hn hnn hne
+
 /-- row `j` has been parsed (or is the row being parsed, its node pending) and produces a node -/
-def Valid (rows : List CRow) (pd : Bool) (kg j : Nat) (c : CRow) : Prop :=
-  (j < kg ∨ (pd = true ∧ j = kg)) ∧ rows[j]? = some c ∧ isNodeRow c = true
+def Valid (rows : List CRow) (M : Maps) (pd : Bool) (kg j : Nat) (c : CRow) : Prop :=
+  (j < kg ∨ (pd = true ∧ j = kg)) ∧ rows[j]? = some c ∧ (isNodeRow c = true ∧ M.el j = false)
 
 /-- `kg` rows fully processed; `pd`: the node of row `kg` is in the arena already (its edges are being
 added, its group does not exist yet) -/
 structure Rel (rows : List CRow) (M : Maps) (pd : Bool) (kg : Nat) (s : St) (st : P1) : Prop where
   gsize : s.groups.size = gOf rows kg
   root : s.groups[0]? = some (.block (List.range' 1 (gOf rows kg - 1)))
-  grp : ∀ j c, j < kg → rows[j]? = some c → isNodeRow c = true →
+  grp : ∀ j c, j < kg → rows[j]? = some c → isNodeRow c = true → isNoop c = false →
     s.groups[gOf rows j]? = some (.row (M.nOf j :: (M.rOf j).toList) c.row.type)
+  grpN : ∀ j c, j < kg → rows[j]? = some c → isNoop c = true →
+    ∃ ps ro, s.groups[gOf rows j]? = some (.noop ps ro) ∧ (M.el j = false → ro = some (M.nOf j))
+  elno : ∀ j c, rows[j]? = some c → isNoop c = false → M.el j = false
+  frel : ∀ j, M.fr j = true → M.el j = true ∧ j < kg ∧ ∃ c, rows[j]? = some c ∧ isNoop c = true
+  tgtfr : ∀ e ∈ st.out, ∀ t, e.tgt = Target.row t → M.fr t = false
   stack : s.stack = [0]
   ids : s.rowIds = st.ids.map (fun p => (p.1, gOf rows p.2))
   idok : ∀ p ∈ st.ids, p.2 < kg ∧ ∃ c, rows[p.2]? = some c ∧ isNodeRow c = true
@@ -322,21 +458,23 @@ structure Rel (rows : List CRow) (M : Maps) (pd : Bool) (kg : Nat) (s : St) (st 
   srcok : ∀ e ∈ st.out, e.src < kg ∧ ∃ c, rows[e.src]? = some c ∧ isNodeRow c = true
   tgtok : ∀ e ∈ st.out, ∀ t, e.tgt = Target.row t → t < kg ∨ (pd = true ∧ t = kg)
   args : s.noArgs = RefFlow.noArgsTests
-  node : ∀ j c, Valid rows pd kg j c →
-    ∃ n : NodeM, s.nodes[M.nOf j]? = some n ∧ RowSim M s.nodes n c (outOf st j) (M.rOf j)
-  disj : ∀ j c j' c', Valid rows pd kg j c → Valid rows pd kg j' c' → ∀ x, x ∈ idxs M j → x ∈ idxs M j' → j = j'
+  node : ∀ j c, Valid rows M pd kg j c →
+    ∃ n : NodeM, s.nodes[M.nOf j]? = some n ∧ RowSim M s.nodes n c (postUpTo rows kg j) (outOf st j) (M.rOf j)
+  disj : ∀ j c j' c', Valid rows M pd kg j c → Valid rows M pd kg j' c' → ∀ x, x ∈ idxs M j → x ∈ idxs M j' → j = j'
   rne : ∀ j i', M.rOf j = some i' → i' ≠ M.nOf j
   rnone : ∀ j, kg ≤ j → M.rOf j = none
+  rnoop : ∀ j c, rows[j]? = some c → isNoop c = true → M.rOf j = none
   rfresh : RFresh s.nodes s.next
+  names : NamesInv rows M kg s.names
 
 theorem Rel.inj {rows : List CRow} {M : Maps} {pd : Bool} {kg : Nat} {s : St} {st : P1} (h : Rel rows M pd kg s st)
-    (j : Nat) (c : CRow) (j' : Nat) (c' : CRow) (hv : Valid rows pd kg j c) (hv' : Valid rows pd kg j' c')
+    (j : Nat) (c : CRow) (j' : Nat) (c' : CRow) (hv : Valid rows M pd kg j c) (hv' : Valid rows M pd kg j' c')
     (e : M.nOf j = M.nOf j') : j = j' :=
   h.disj j c j' c' hv hv' (M.nOf j) (by simp [idxs]) (by rw [e]; simp [idxs])
 
 /-- every arena index in use is below the size of the arena -/
 theorem Rel.idx_lt {rows : List CRow} {M : Maps} {pd : Bool} {kg : Nat} {s : St} {st : P1} (h : Rel rows M pd kg s st)
-    (j0 : Nat) (c0 : CRow) (hv : Valid rows pd kg j0 c0) : ∀ x ∈ idxs M j0, x < s.nodes.size := by
+    (j0 : Nat) (c0 : CRow) (hv : Valid rows M pd kg j0 c0) : ∀ x ∈ idxs M j0, x < s.nodes.size := by
   intro x hx
   obtain ⟨m, hm, hsim⟩ := h.node j0 c0 hv
   simp only [idxs, List.mem_cons] at hx
@@ -355,27 +493,35 @@ for the new out-edge -/
 theorem Rel.updateG {rows : List CRow} {M : Maps} {pd : Bool} {kg : Nat} {s s' : St} {st : P1}
     (h : Rel rows M pd kg s st)
     {j : Nat} {c : CRow} (new : OutEdge) (hsrc : new.src = j) (hj : j < kg)
-    (hc : rows[j]? = some c) (hnr : isNodeRow c = true)
-    (htg : ∀ t, new.tgt = Target.row t → t < kg ∨ (pd = true ∧ t = kg))
+    (hc : rows[j]? = some c) (hnr : isNodeRow c = true ∧ M.el j = false)
+    (htg : ∀ t, new.tgt = Target.row t → (t < kg ∨ (pd = true ∧ t = kg)) ∧ M.fr t = false)
     (x : Nat) (hx : x ∈ idxs M j) (hext : NExt s.nodes s'.nodes)
     (hoth : ∀ i, i ≠ x → s'.nodes[i]? = s.nodes[i]?)
     (hg : s'.groups = s.groups) (hst : s'.stack = s.stack)
     (hri : s'.rowIds = s.rowIds) (hna : s'.noArgs = s.noArgs) (hnx : s.next ≤ s'.next)
-    (hrow : ∃ n', s'.nodes[M.nOf j]? = some n' ∧ RowSim M s'.nodes n' c (outOf st j ++ [new]) (M.rOf j))
-    (hfr : ∀ n' r, s'.nodes[x]? = some n' → n'.router = some (.rnd r) → ∀ cat ∈ r.cats, ∃ k, k < s'.next ∧ cat.uid = tid k) :
+    (hrow : ∃ n', s'.nodes[M.nOf j]? = some n' ∧
+      RowSim M s'.nodes n' c (postUpTo rows kg j) (outOf st j ++ [new]) (M.rOf j))
+    (hfr : ∀ n' r, s'.nodes[x]? = some n' → n'.router = some (.rnd r) → ∀ cat ∈ r.cats, ∃ k, k < s'.next ∧ cat.uid = tid k)
+    (hnm : s'.names = s.names := by rfl) :
     Rel rows M pd kg s' { st with out := new :: st.out } := by
   refine ⟨by rw [hg]; exact h.gsize, by rw [hg]; exact h.root,
-    by rw [hg]; exact h.grp, by rw [hst]; exact h.stack, by rw [hri]; exact h.ids, h.idok, h.prev, ?_, ?_,
-    by rw [hna]; exact h.args, ?_, h.disj, h.rne, h.rnone, ?_⟩
+    by rw [hg]; exact h.grp, by rw [hg]; exact h.grpN, h.elno, h.frel, ?_,
+    by rw [hst]; exact h.stack, by rw [hri]; exact h.ids, h.idok, h.prev, ?_, ?_,
+    by rw [hna]; exact h.args, ?_, h.disj, h.rne, h.rnone, h.rnoop, ?_, by rw [hnm]; exact h.names⟩
+  · intro o ho t ht
+    simp only [List.mem_cons] at ho
+    rcases ho with rfl | ho
+    · exact (htg t ht).2
+    · exact h.tgtfr o ho t ht
   · intro o ho
     simp only [List.mem_cons] at ho
     rcases ho with rfl | ho
-    · rw [hsrc]; exact ⟨hj, c, hc, hnr⟩
+    · rw [hsrc]; exact ⟨hj, c, hc, hnr.1⟩
     · exact h.srcok o ho
   · intro o ho t ht
     simp only [List.mem_cons] at ho
     rcases ho with rfl | ho
-    · exact htg t ht
+    · exact (htg t ht).1
     · exact h.tgtok o ho t ht
   · intro j' c' hv
     by_cases hjj : j' = j
@@ -407,24 +553,25 @@ theorem Rel.updateG {rows : List CRow} {M : Maps} {pd : Bool} {kg : Nat} {s s' :
 theorem Rel.update {rows : List CRow} {M : Maps} {pd : Bool} {kg : Nat} {s s' : St} {st : P1}
     (h : Rel rows M pd kg s st)
     {j : Nat} {n n' : NodeM} {c : CRow} (new : OutEdge) (hsrc : new.src = j) (hj : j < kg)
-    (hn : s.nodes[M.nOf j]? = some n) (hc : rows[j]? = some c) (hnr : isNodeRow c = true) (hro : M.rOf j = none)
-    (hu : n'.uid = n.uid)
-    (htg : ∀ t, new.tgt = Target.row t → t < kg ∨ (pd = true ∧ t = kg))
+    (hn : s.nodes[M.nOf j]? = some n) (hc : rows[j]? = some c) (hnr : isNodeRow c = true ∧ M.el j = false)
+    (hro : M.rOf j = none) (hu : n'.uid = n.uid)
+    (htg : ∀ t, new.tgt = Target.row t → (t < kg ∨ (pd = true ∧ t = kg)) ∧ M.fr t = false)
     (hn' : s'.nodes[M.nOf j]? = some n') (hoth : ∀ i, i ≠ M.nOf j → s'.nodes[i]? = s.nodes[i]?)
     (hg : s'.groups = s.groups) (hst : s'.stack = s.stack)
     (hri : s'.rowIds = s.rowIds) (hna : s'.noArgs = s.noArgs)
-    (hsim : NodeSim M s'.nodes n' c (outOf st j ++ [new]))
+    (hsim : NodeSim M s'.nodes n' c (postUpTo rows kg j) (outOf st j ++ [new]))
     (hnx : s.next ≤ s'.next := by first | exact Nat.le_refl _ | exact Nat.le_add_right _ _)
     (hfr : ∀ r, n'.router = some (.rnd r) → ∀ cat ∈ r.cats, ∃ k, k < s'.next ∧ cat.uid = tid k := by
-      intro r hr; cases hr) :
-    Rel rows M pd kg s' { st with out := new :: st.out } ∧ NExt s.nodes s'.nodes := by
+      intro r hr; cases hr)
+    (hnm : s'.names = s.names := by rfl) :
+    Rel rows M pd kg s' { st with out := new :: st.out } ∧ NExt s.nodes s'.nodes ∧ s'.groups = s.groups := by
   have hext : NExt s.nodes s'.nodes := by
     intro i m hm
     by_cases hij : i = M.nOf j
     · subst hij; rw [hn] at hm; injection hm with hm; subst hm; exact ⟨n', hn', hu⟩
     · exact ⟨m, by rw [hoth i hij]; exact hm, rfl⟩
   refine ⟨Rel.updateG h new hsrc hj hc hnr htg (M.nOf j) (by simp [idxs]) hext hoth hg hst hri hna hnx
-    ⟨n', hn', by rw [hro]; exact .one hsim⟩ ?_, hext⟩
+    ⟨n', hn', by rw [hro]; exact .one hsim⟩ ?_ hnm, hext, hg⟩
   intro m r hm hr cat hcat
   rw [hn'] at hm; injection hm with hm; subst hm
   exact hfr r hr cat hcat
@@ -502,15 +649,16 @@ abbrev newEdge : OutEdge := { src := j, cond := toRCond cond, tgt := tgt }
 
 /-- what the state must look like afterwards -/
 abbrev EdgePost : PUnit → St → Prop := fun _ s' =>
-  Rel rows M pd kg s' { st with out := newEdge tgt cond j :: st.out } ∧ NExt s.nodes s'.nodes
+  Rel rows M pd kg s' { st with out := newEdge tgt cond j :: st.out } ∧ NExt s.nodes s'.nodes ∧ s'.groups = s.groups
 
 variable (h : Rel rows M pd kg s st) (hj : j < kg) (hn : s.nodes[M.nOf j]? = some n) (hc : rows[j]? = some c)
-  (hnode : isNodeRow c = true) (hro : M.rOf j = none)
-  (hd : DestIs M s.nodes d (some tgt)) (htg : ∀ t, tgt = Target.row t → t < kg ∨ (pd = true ∧ t = kg))
+  (hnode : isNodeRow c = true ∧ M.el j = false) (hro : M.rOf j = none)
+  (hd : DestIs M s.nodes d (some tgt))
+  (htg : ∀ t, tgt = Target.row t → (t < kg ∨ (pd = true ∧ t = kg)) ∧ M.fr t = false)
 include h hj hn hc hnode hro hd htg
 
 /-- an action row is left unconditionally: its one exit now leads to the new row -/
-theorem plain_edge_sim (hk : kindOf c.row.type = .action) (hp : PlainSim M s.nodes n c.row.action (outOf st j))
+theorem plain_edge_sim (hk : kindOf c.row.type = .action) (hp : PlainSim M s.nodes n c.row.action (postUpTo rows kg j) (outOf st j))
     (he : cond.blank = true) :
     wp (rowExitBlank (M.nOf j) n d) s (EdgePost rows M pd kg tgt cond s st j) := by
   unfold rowExitBlank
